@@ -129,8 +129,7 @@ class FuncExporter:
         if isinstance(e, A.BoolVal):
             return {'k': 'BoolVal', 'v': bool(e.val), 'a': [], 'id': nid}
         if isinstance(e, A.RationalVal):
-            q = e.as_rational()
-            v = num_json(q)
+            v = num_json(e.as_real())       # as_real keeps the sign of a negative-zero literal
             # a negated zero literal is spelled as Neg(0); plain literals are non-negative or signed rationals
             return {'k': 'Num', 'v': v, 'a': [], 'id': nid}
         if isinstance(e, A.ForeignVal):
